@@ -54,6 +54,9 @@ def gen_behaviour(rng, op):
     if op in N_PAIR_OPS:
         b = {"ret": gen_status_spec(rng, "n"), "ds": rng.choice(["ds", "ds", "none", "empty", "str"]),
              "shape": rng.choice(["pair", "pair", "pair", "pair", "single", "triple", "none"])}
+        if op == "n_create":
+            # PS3.7 10.1.5: the SCU may leave the Affected SOP Instance UID out, the SCP (= the handler) then assigns it
+            b["create_uid"] = rng.choice(["rq", "rq", "handler", "missing", "handler_bad"])
         return b
     # generator handlers
     b = {"mode": rng.choice(["gen", "gen", "gen", "gen", "gen", "list", "none", "raise_first", "ret_int", "ret_obj"])}
@@ -145,6 +148,8 @@ def execute(sc, ctx):
             note(name, event)
             st = mk_status(b["ret"])
             ds = mk_ds(b["ds"], 0)
+            if name == "n_create" and b.get("create_uid") in ("handler", "handler_bad") and hasattr(ds, "PatientID"):
+                ds.AffectedSOPInstanceUID = "1.2.3.4.99" if b["create_uid"] == "handler" else "not/a uid" * 9
             sh = b["shape"]
             if sh == "pair":
                 return st, ds
@@ -282,7 +287,8 @@ def execute(sc, ctx):
             st, ds = assoc.send_n_action(C.small_ds(1), 1, C.BASIC_FILM_SESSION, "1.2.3.4", msg_id=mid)
             out.append((_full(st), _dsrepr(ds)))
         elif op == "n_create":
-            st, ds = assoc.send_n_create(C.small_ds(1), C.BASIC_FILM_SESSION, "1.2.3.4", msg_id=mid)
+            st, ds = assoc.send_n_create(C.small_ds(1), C.BASIC_FILM_SESSION,
+                                         "1.2.3.4" if b.get("create_uid", "rq") == "rq" else None, msg_id=mid)
             out.append((_full(st), _dsrepr(ds)))
         elif op == "n_delete":
             out.append((_full(assoc.send_n_delete(C.BASIC_FILM_SESSION, "1.2.3.4", msg_id=mid)), None))
